@@ -34,6 +34,8 @@ var c03Alphabet = []string{
 	"g2:u1:C1", "del-g2",
 	// the granting document written by a revision that arrives from another Sync Gateway (version-vector protocol)
 	"g1~vv:u1:C5", "g1~vv:none",
+	// ... and by one that conflicts with the local winner and wins (the local winner is tombstoned)
+	"g1~vvc:u2:C6",
 }
 
 type c03Grant struct {
@@ -127,7 +129,7 @@ func (w *c03World) apply(sym string) error {
 		return err
 	}
 	conflictTag := "conflict"
-	viaVV := false
+	viaVV, viaVVConflict := false, false
 	putDoc := func(id string, body Body, g c03Grant, conflict bool) error {
 		docID := w.n(id)
 		m := w.docs[id]
@@ -163,6 +165,52 @@ func (w *c03World) apply(sym string) error {
 			return nil
 		}
 		winner, _ := c03Winner(m.leaves)
+		if viaVVConflict {
+			// a revision from another Sync Gateway that conflicts with the local winner (its vector has not seen it, its
+			// history branches off the winner's parent) and is newer: the default resolver lets it win, the local winner
+			// is tombstoned and the document's grants must become those of the incoming revision
+			if winner == "" || m.leaves[winner].deleted {
+				return nil
+			}
+			cur, err := w.coll.GetDocument(ctx, docID, DocUnmarshalSync)
+			if err != nil {
+				return err
+			}
+			parent := cur.History[winner].Parent
+			if parent == "" || cur.HLV == nil {
+				return nil // a sibling of a first-generation revision would be a second root
+			}
+			w.conflictN++
+			g0, _ := ParseRevID(ctx, winner)
+			rev := fmt.Sprintf("%d-vvc%d", g0, w.conflictN)
+			var history []string
+			for r := parent; r != ""; r = cur.History[r].Parent {
+				history = append(history, r)
+			}
+			history = append([]string{rev}, history...)
+			incoming := &HybridLogicalVector{SourceID: "cmVtb3RlMg", Version: cur.HLV.Version + 1000000000000, PreviousVersions: HLVVersions{}}
+			newDoc := &Document{ID: docID, RevID: rev, HLV: incoming}
+			newDoc.UpdateBody(body)
+			if _, _, _, err := w.coll.PutExistingCurrentVersion(ctx, PutDocOptions{NewDoc: newDoc, RevTreeHistory: history, NewDocHLV: incoming, ISGRWrite: true,
+				ConflictResolver: NewConflictResolver(DefaultLWWConflictResolutionType, nil)}); err != nil {
+				return err
+			}
+			after, err := w.coll.GetDocument(ctx, docID, DocUnmarshalSync)
+			if err != nil {
+				return err
+			}
+			delete(m.leaves, winner)
+			for r, ri := range after.History {
+				if ri.Parent == winner && ri.Deleted {
+					m.leaves[r] = c03LeafModel{deleted: true}
+				}
+			}
+			m.leaves[rev] = c03LeafModel{grant: g}
+			if win2, _ := c03Winner(m.leaves); win2 != "" {
+				w.curRev[id] = win2
+			}
+			return nil
+		}
 		if viaVV {
 			// a non-conflicting revision from another Sync Gateway: its vector dominates the local one, its history
 			// continues the local winning revision
@@ -285,7 +333,9 @@ func (w *c03World) apply(sym string) error {
 	}
 	// granting document writes: "<doc>[-conflict]:<grantee>:<channel>" or "<doc>:u1-gets-r1" or "<doc>:none"
 	parts := strings.Split(sym, ":")
-	if strings.HasSuffix(parts[0], "~vv") {
+	if strings.HasSuffix(parts[0], "~vvc") {
+		parts[0], viaVVConflict = strings.TrimSuffix(parts[0], "~vvc"), true
+	} else if strings.HasSuffix(parts[0], "~vv") {
 		parts[0], viaVV = strings.TrimSuffix(parts[0], "~vv"), true
 	}
 	id := parts[0]
